@@ -2,7 +2,8 @@
 _T = ("TLA+ spec of the allocator state machine (Arena.tla) model-checked with TLC against the contract invariants; TLC-generated "
       "behaviours replayed on the real allocator; every recorded step evaluated by TLC against the contract (ArenaObs.tla)")
 _N = ("Trusted: TLC; the replay harness as a recorder (public API only, deterministic specified base allocator, byte-diff write monitor); "
-      "block liveness is taken from the behaviour; reads are not observed. Bounds: behaviours of <= 30-45 steps, layouts/settings from finite sets.")
+      "block liveness is taken from the behaviour; reads are not observed. Bounds: random behaviours of <= 30-45 steps plus an exhaustively "
+      "enumerated grid of 3-step behaviours at the boundary of the free space; layouts/settings from finite sets.")
 
 
 def _c(text, ref):
@@ -17,7 +18,9 @@ CLAIMS = {
               "DESIGN.md section 4, C01"),
     "C02": _c("Every block is filled with an id-derived pattern and re-read after every later step; a byte-diff of the whole base-allocator "
               "region per step gives the written ranges; TLC checks no live block is damaged, reallocation keeps the surviving prefix, "
-              "zeroed memory is zero (on previously dirtied memory) and every written range lies in a chunk header or the returned block.",
+              "zeroed memory is zero (on previously dirtied memory) and every written range lies in a chunk header or the returned block; "
+              "live growable vectors (BumpVec as a client of the allocator, relocating on growth) are re-read element by element after "
+              "every step.",
               "DESIGN.md section 4, C02"),
     "C03": _c("For every scope exit (closure return, unwind, guard drop, guard reset, reset_to) TLC compares the observed allocated bytes, "
               "current chunk and position with the values observed at entry, requires chunks to be retained and earlier blocks intact; "
@@ -33,7 +36,8 @@ CLAIMS = {
               "base allocator).", "DESIGN.md section 4, C10"),
     "C13": _c("TLC checks on every step that allocated bytes decrease only when the model's history says the block is the most recent live "
               "allocation (or a frame/reset ends), that opt-outs (settings and WithoutDealloc/WithoutShrink in any nesting) never "
-              "reclaim, that dealloc+same request and in-place grow return the same address when the property's antecedent holds.",
+              "reclaim, that dealloc+same request and in-place grow return the same address when the property's antecedent holds - for plain "
+              "blocks and for growable vectors (drop, shrink_to_fit, into_boxed_slice, amortised growth; also with a wrapped allocator).",
               "DESIGN.md section 4, C13"),
 }
 
@@ -41,8 +45,10 @@ CLAIMS.update({
     "C07": _c("The model draws, for every operation that reaches the base allocator, whether the (scripted) base allocator refuses, and "
               "issues requests whose size computation overflows; TLC checks that every such step returns an error (never success, "
               "never a panic of a try_/allocator call), that all C01/C02/C05/C10 clauses hold on every later step of the behaviour "
-              "and that later requests the model can serve are served. Collection-level clauses (length/contents after a failed "
-              "push/reserve) are covered for the exclusive-borrow collections of Arena.tla (failed growth keeps the collection).",
+              "and that later requests the model can serve are served; the failure mix is replayed through the try_ and the panicking "
+              "twins (overflow = unwinding panic, same state afterwards). Collection-level clauses: a growable vector or an "
+              "exclusive-borrow collection whose growth failed / whose reserve overflowed keeps buffer, length, capacity and elements and "
+              "is finalised correctly afterwards.",
               "DESIGN.md section 4, C07"),
     "C14": _c("Claim frames in Arena.tla (nested, on unallocated arenas, with scopes/chunk growth/unwinding inside) with operations "
               "interleaved on the claimed handle and on the guard; TLC checks on every recorded step: requests through the claimed "
@@ -50,7 +56,9 @@ CLAIMS.update({
               "hands back exactly the same position, and every block stays intact and disjoint.",
               "DESIGN.md section 4, C14"),
     "C15": _c("Prepare/fill/commit frames in Arena.tla (growth policy of MutBumpVec transcribed) replayed on the real MutBumpVec, "
-              "MutBumpVecRev (7 element layouts) and on the raw dyn prepare_allocation/allocate_prepared interface; TLC checks that "
+              "MutBumpVecRev, MutBumpString (4 element layouts; created empty / with capacity / by from_elem_in; push, extend, reserve) and "
+              "on the raw dyn prepare_allocation/allocate_prepared interface, plus alloc_iter_mut(_rev), alloc_fmt_mut, alloc_cstr_fmt_mut, "
+              "with capacities at the boundary of the free space enumerated exhaustively; TLC checks that "
               "positions of the creation chunk and earlier chunks never move while filling/dropping/unwinding, only a later EMPTY chunk "
               "may become current, and that finalising advances the position by len*size plus at most (align-1)+(min_align-1) and yields "
               "exactly the pushed elements (reversed for rev).", "DESIGN.md section 4, C15"),
@@ -63,7 +71,9 @@ CLAIMS.update({
 CLAIMS["C17"] = _c("Every TLC-generated behaviour is replayed through 7 entry-point variants (Allocator on &BumpScope, &dyn "
                    "BumpAllocatorCore, reference impls, try_allocate_layout, the panicking twins, typed sized/slice fast paths, the Bump "
                    "type itself) from identical initial states with a deterministic base allocator; TLC compares result, address, "
-                   "length, allocated bytes, position and content checks pairwise on every step (independent of the model).",
+                   "length, allocated bytes, position and content checks pairwise on every step (independent of the model); includes the "
+                   "value-level families, alloc_try_with(_mut), alloc_iter / alloc_fmt / alloc_cstr_fmt and their _mut variants, "
+                   "vector operations and overflowing requests.",
                    "DESIGN.md section 4, C17")
 
 ENGINES = [
